@@ -61,11 +61,6 @@ def rtPnm4 (img : Img Bool) : Outcome Bool :=
   tiff writer::write_data / write_tiled_data pass the view through `premultiply_view` when the colour space has an
   alpha channel (the file is tagged EXTRASAMPLE_ASSOCALPHA); the reader copies the stored samples unchanged. -/
 
-/-- channel_multiply for uint8_t channels (C07: `div255 (a*b)`, round to nearest) -/
-def mulU8 (a b : UInt8) : UInt8 :=
-  let t := a.toNat * b.toNat + 128
-  UInt8.ofNat ((t + t / 256) / 256)
-
 /-- tiff writer, tiled: `if (j + tw < view.width() && i + th < view.height())` the tile goes through
     write_tiled_view_to_dev (premultiplied when the pixel has alpha), otherwise -- every tile that touches the right
     or bottom edge -- through a plain std::copy (NOT premultiplied).  Strips (`tile = none`): every row premultiplied. -/
